@@ -488,7 +488,7 @@ static string unrank(long i) {  // i-th string in length-then-lexicographic orde
 
 static const std::vector<string> COMP = {"", "", ".", ".", "..", "..", "..", "a", "b", "ab", "a", "...", ".a", "a.", "..a",
                                          "a..", "c d", "x-y", "~", "%s", "a;b", ".. ", "\\", "\xc3\xa9", "\xff", "..\xff",
-                                         string("a\0b", 3), string("\0", 1), string("..\0", 3), "lib", "lib64", "a", ".."};
+                                         string("a\0b", 3), string("\0", 1), string("..\0", 3), "lib", "lib64", "a", "..", "A", "Ab", "aB", "LIB"};
 static string randomPath(Rng& r) {
   if (r.coin(1, 4)) {  // unstructured over the small alphabet, '/' and '.' heavy
     size_t n = (size_t)r.range(9, 28);
@@ -656,8 +656,17 @@ std::string gen(Rng& r, long i, const Args& a) {
     return "F " + (k < W.size() ? W[k] : WB[k - W.size()]);
   }
   if (mode == "br") {
-    string x = randomPath(r), y;
-    switch (r.below(6)) {
+    string x = r.coin(1, 40) ? longPath(r) : randomPath(r), y;
+    if (x.size() > 150) stat("br_long_pair");
+    switch (r.below(7)) {
+      case 6: {  // the same text with the case of one letter changed
+        y = x;
+        for (int tries = 0; tries < 8 && !y.empty(); ++tries) {
+          size_t k = (size_t)r.below(y.size());
+          if ((y[k] >= 'a' && y[k] <= 'z') || (y[k] >= 'A' && y[k] <= 'Z')) { y[k] ^= 0x20; break; }
+        }
+        break;
+      }
       case 0: y = randomPath(r); break;
       case 1: y = x + "/" + randomPath(r); break;
       case 2: {  // shares some leading components
@@ -684,7 +693,15 @@ std::string gen(Rng& r, long i, const Args& a) {
     string x = longString(r, (size_t)r.pick(LEN)), y;
     size_t k = (size_t)r.below(x.size() + 1);
     if (r.coin(1, 3)) k = r.coin() ? x.size() - std::min<size_t>(x.size(), r.below(3)) : std::min<size_t>(x.size(), r.below(3));
-    switch (r.below(8)) {
+    switch (r.below(10)) {
+      case 8: case 9: {  // prefix / suffix with the case of one letter changed
+        y = r.coin() ? x.substr(0, k) : x.substr(k);
+        for (int tries = 0; tries < 8 && !y.empty(); ++tries) {
+          size_t j = (size_t)r.below(y.size());
+          if (y[j] >= 'a' && y[j] <= 'z') { y[j] ^= 0x20; stat("bl_case_flipped"); break; }
+        }
+        break;
+      }
       case 0: y = x.substr(0, k); break;
       case 1: y = x.substr(k); break;
       case 2: y = x.substr(0, k); if (!y.empty()) y[r.below(y.size())] ^= 1; break;
